@@ -20,6 +20,97 @@ type G struct {
 	Malformed int
 }
 
+// Hash is the table hash of the emulator (set by the tools that link the emulator); with it the
+// generator can build collections whose bucket table has a chosen shape. Random names never do that:
+// the table holds one item per bucket and grows until all names are separated, so it is always sparse.
+var Hash func(string) uint64
+
+var denseCache = map[int][]string{}
+
+// denseNames returns one name per bucket of a table of 2^k buckets (index = bucket number)
+func denseNames(k int) []string {
+	if n, ok := denseCache[k]; ok {
+		return n
+	}
+	size := 1 << k
+	names := make([]string, size)
+	found := 0
+	for i := 0; found < size && i < 1000000; i++ {
+		name := fmt.Sprintf("d%d_%d", k, i)
+		h := uint32(Hash(name)) & uint32(size-1)
+		// bucket = the k low bits reversed
+		b := 0
+		for j := 0; j < k; j++ {
+			if h&(1<<j) != 0 {
+				b |= 1 << (k - 1 - j)
+			}
+		}
+		if names[b] == "" {
+			names[b] = name
+			found++
+		}
+	}
+	denseCache[k] = names
+	return names
+}
+
+// Shaped returns member names that fill a table of 32 or 64 buckets in one of several shapes: all
+// buckets, the low half densely and one bucket of each pair above it (halving becomes possible as soon
+// as the low half has been emptied), or one bucket of every pair.
+func (g *G) Shaped() []string {
+	if Hash == nil {
+		return g.membersN(2, 6)
+	}
+	k := 5 + g.R.Intn(2)
+	names := denseNames(k)
+	size := 1 << k
+	var out []string
+	shape := g.R.Intn(4)
+	for b := 0; b < size; b++ {
+		take := false
+		switch shape {
+		case 0:
+			take = g.R.Intn(10) < 8
+		case 1:
+			if b <= size/2 {
+				take = g.R.Intn(10) < 9
+			} else {
+				take = b%2 == 0 && g.R.Intn(10) < 8
+			}
+		case 2:
+			take = (b%2 == g.R.Intn(2)) && g.R.Intn(10) < 8
+		default:
+			if b >= size/2 {
+				take = g.R.Intn(10) < 9
+			} else {
+				take = b%2 == 1 && g.R.Intn(10) < 7
+			}
+		}
+		if take {
+			out = append(out, names[b])
+		}
+	}
+	g.R.Shuffle(len(out), func(i, j int) { out[i], out[j] = out[j], out[i] })
+	return out
+}
+
+// ShapedSome returns a few names of the shaped pools (to remove, look up, or keep in a second operand)
+func (g *G) ShapedSome() []string {
+	if Hash == nil {
+		return g.membersN(1, 3)
+	}
+	names := denseNames(5 + g.R.Intn(2))
+	n := 1 + g.R.Intn(6)
+	if g.R.Intn(3) == 0 {
+		n = len(names)/2 + g.R.Intn(len(names)/2)
+	}
+	out := make([]string, 0, n)
+	for i := 0; i < n; i++ {
+		out = append(out, names[g.R.Intn(len(names))])
+	}
+	return out
+}
+
 func New(seed int64, fam string) *G {
 	g := &G{R: rand.New(rand.NewSource(seed)), Fam: fam, Conns: 1, Malformed: 8}
 	g.Keys = []string{"k0", "k1", "k2", "k3", "k4", "k5"}
@@ -408,6 +499,15 @@ func init() {
 	add("hash", 4, func(g *G) []string {
 		return []string{g.pick("HGET", "HEXISTS", "HSTRLEN"), g.Key(), fmt.Sprintf("f%d", g.R.Intn(48))}
 	})
+	add("hash", 3, func(g *G) []string {
+		a := []string{"HSET", g.Key()}
+		for _, f := range g.Shaped() {
+			a = append(a, f, g.pick("v", "w", "1"))
+		}
+		return a
+	})
+	add("hash", 3, func(g *G) []string { return append([]string{"HDEL", g.Key()}, g.ShapedSome()...) })
+	add("hash", 2, func(g *G) []string { return append([]string{"HMGET", g.Key()}, g.ShapedSome()...) })
 
 	// ---- sets
 	add("set", 5, func(g *G) []string {
@@ -427,6 +527,11 @@ func init() {
 	add("set", 3, func(g *G) []string {
 		return []string{"SISMEMBER", g.Key(), fmt.Sprintf("m%d", g.R.Intn(48))}
 	})
+	// collections whose bucket table is densely or regularly filled (see Shaped)
+	add("set", 4, func(g *G) []string { return append([]string{"SADD", g.Key()}, g.Shaped()...) })
+	add("set", 3, func(g *G) []string { return append([]string{"SADD", g.Key()}, g.ShapedSome()...) })
+	add("set", 3, func(g *G) []string { return append([]string{"SREM", g.Key()}, g.ShapedSome()...) })
+	add("set", 1, func(g *G) []string { return []string{"DEL", g.Key()} })
 	add("set mixed tx keys expiry", 12, func(g *G) []string {
 		return append([]string{"SADD", g.Key()}, g.membersN(1, 4)...)
 	})
@@ -611,6 +716,13 @@ func init() {
 	add("tx", 8, func(g *G) []string { return append([]string{"WATCH"}, g.keysN(1, 2)...) })
 	add("tx", 2, func(g *G) []string { return []string{"UNWATCH"} })
 	add("tx", 2, func(g *G) []string { return []string{g.pick("NOSUCHCMD", "GET", "SET k", "LPUSH k")} })
+	// commands a server refuses while queueing: container commands with a subcommand that does not
+	// exist or without one, besides the unknown command and the wrong arity above
+	add("tx", 2, func(g *G) []string {
+		return []string{g.pick("CLIENT NOSUCH", "COMMAND NOSUCH", "CLIENT", "client nosuch arg", "COMMAND NOSUCH get", "CLIENT GETNAME")}
+	})
+	// a flush is a modification of every watched key of the database(s) it empties
+	add("tx", 1, func(g *G) []string { return []string{g.pick("FLUSHDB", "FLUSHALL")} })
 	add("mixed", 1, func(g *G) []string { return []string{g.pick("MULTI", "EXEC", "DISCARD", "UNWATCH")} })
 
 	// ---- databases / session
